@@ -8,7 +8,7 @@ import conc
 import driver
 
 PROPERTIES_FILE = "Properties/Properties_C17.v"
-COQ_DEPS = ["Proofs/Refcnt_inv_proofs.vo", "Proofs/Refcnt_proofs.vo", "Model/RefcntSites.vo", "Gen/Gen_lanesites.vo", "Gen/Gen_fields.vo", "Gen/Gen_refcnt.vo",
+COQ_DEPS = ["Proofs/Refcnt_inv_proofs.vo", "Proofs/Refcnt_step_proofs.vo", "Proofs/Refcnt_proofs.vo", "Model/RefcntSites.vo", "Gen/Gen_lanesites.vo", "Gen/Gen_fields.vo", "Gen/Gen_refcnt.vo",
             "Gen/Gen_group.vo", "Proofs/SLaneRef_proofs.vo"]
 EXTRA_PROPERTIES_FILES = ["Properties/Properties_C17_lane.v"]
 GEN_MODULES = ["Gen_refcnt", "Gen_group", "Gen_lanesites", "Gen_dqstate"]
@@ -26,10 +26,11 @@ TRUSTED = [
     "step of the model, it is not modelled as a crash): references are ghost tokens; a call USES the object through a reference "
     "that exists and only borrows it (any number of threads may be inside calls through the same reference); a release takes the "
     "reference it releases; while calls in progress borrow a reference of a level (external / internal) the owners do not release "
-    "the last reference of that level; a leave consumes an enter that has returned.  EXCLUDED although legal in C: using a group "
-    "under an outstanding enter only, after the last external and internal reference are gone (dispatch_group_async from inside a "
-    "group block after dispatch_release): enter / notify / set_context / retain_weak need an external or internal reference to "
-    "borrow in the model; such clients are outside the theorems and are not exercised by the harness",
+    "the last reference of that level; a leave consumes an enter that has returned.  A call may also use a group UNDER AN "
+    "OUTSTANDING ENTER ONLY, after the last external and internal reference are gone (dispatch_group_async from inside a group "
+    "block after dispatch_release: the group's own +1 taken for that enter keeps it alive); while calls in progress use the group "
+    "this way a leave must leave at least one outstanding enter.  The harness exercises it (script ops A / B, stress calls made "
+    "under an enter)",
     "CLIENT, part 2 (Refcnt.contract_r — an explicit hypothesis on every step of a run, restated by C17_contract_is; the model "
     "itself does what C does beyond it: counters wrap, 'Too many nested calls' goes to the crash state): fewer than 2^31-2 "
     "references of each level; fewer than 2^30-1 outstanding enters",
@@ -55,8 +56,8 @@ TRUSTED = [
     "memory safety of the C code itself is validated (AddressSanitizer build in the thorough tier), not proved",
 ]
 ASSUMPTIONS = ["clients respect the reference discipline: no over-release, no use after the last release, the last reference of a level "
-               "is not released while calls in progress use the object through that level (sharing one reference between threads is fine); "
-               "clients that use a group under an outstanding enter only (no external / internal reference left) are NOT covered",
+               "is not released while calls in progress use the object through that level (sharing one reference between threads is fine; "
+               "using a group under an outstanding enter only is fine too, the last such enter then not being left meanwhile)",
                "fewer than 2^31-2 simultaneous references of each level, fewer than 2^30-1 outstanding dispatch_group_enter",
                "HAS_WAITERS is not left set on an empty group at dispose (C07)"]
 
@@ -73,11 +74,11 @@ class GSim:
     def alive(self):
         return self.x > 0 or self.i > 0 or self.e > 0 or self.pend > 0
 
-    def usable(self):       # the application can still call into the object through a reference it holds
-        return self.x > 0 or self.i > 0
+    def usable(self):       # the application can still call into the object: through a reference it holds or under an
+        return self.x > 0 or self.i > 0 or self.e > 0     # outstanding enter (the group's own +1 keeps it alive)
 
     def legal(self, c):
-        if c in "rR":
+        if c in "rRB":
             return self.x > 0
         if c == "l":
             return self.e > 0
@@ -109,6 +110,11 @@ class GSim:
             self.i -= 1
         elif c == "J":
             self.i -= 2
+        elif c in "AB":         # a group block that enters again and notifies from inside; B: after the application's release
+            if c == "B":
+                self.x -= 1
+            if self.e > 0:
+                self.pend += 1
         elif c == "W":          # _os_object_retain_weak: a new external reference iff external references still exist
             if self.x > 0:
                 self.x += 1
@@ -128,11 +134,15 @@ def model_calls(script):
     """list of (per harness op) lists of model calls (op, internal?, arg)"""
     sim, res = GSim(), []
     for c in tokens(script):
-        bi = 0 if sim.x > 0 else 1
+        bi = 0 if sim.x > 0 else (1 if sim.i > 0 else 2)
         if c[0] == "c":
             res.append([(6, bi, int(c[1]))])
         elif c == "a":
             res.append([(3, bi, 0), (4, 0, 0)])
+        elif c == "A":      # outer enter; inside the block (under its enter): enter, notify; then the two leaves
+            res.append([(3, bi, 0), (3, 2, 0), (5, 2, 0), (4, 0, 0), (4, 0, 0)])
+        elif c == "B":      # the same with the application's release before the block runs
+            res.append([(3, bi, 0), (2, 0, 0), (3, 2, 0), (5, 2, 0), (4, 0, 0), (4, 0, 0)])
         elif c == "w":
             res.append([])
         elif c == "W":
@@ -151,7 +161,7 @@ def model_calls(script):
 def gen_group_scripts(rng, n):
     corpus = ["c1fennlR",            # witness shape of seeded defect C17-1: two notifications pending when the group empties
               "ennnlR", "c2fennnnlrRR", "c3ftenlnR", "nnR", "c4fenRl", "eiRnnlI", "c5fTjRenlJ", "c6fiReenllnI", "eelnlR",
-              "c7fFeR" "l", "c8fCenlR", "c9faR", "enarR", "WRWiRWI", "c3fiWrRRRWI", "c1ftwewlR", "rrRRenlennlR", "c2fenlenlennnlR"]
+              "c7fFeR" "l", "c8fCenlR", "c9faR", "enarR", "WRWiRWI", "c3fiWrRRRWI", "c1feRenll", "eRnl", "c2feRennelll", "c4fB", "c5feBl", "AnR", "c6frBAR", "iBI", "c1ftwewlR", "rrRRenlennlR", "c2fenlenlennnlR"]
     out = list(corpus)
     for _ in range(n):
         sim, s = GSim(), ""
@@ -162,14 +172,14 @@ def gen_group_scripts(rng, n):
                 s += "f"
         burst = rng.chance(1, 3)
         for _k in range(L):
-            cands = [c for c in "eelnnnrRiIjJtTwaW" if sim.legal(c) and (c != "a" or sim.usable())]
+            cands = [c for c in "eelnnnrRiIjJtTwaWAB" if sim.legal(c) and (c not in "aA" or sim.usable())]
             if burst and sim.e > 0 and sim.usable() and rng.chance(1, 2):
                 c = "n"
             elif not cands:
                 break
             else:
                 c = rng.choice(cands)
-            if c == "R" and sim.x == 1 and sim.i == 0 and rng.chance(2, 3):
+            if c in "RB" and sim.x == 1 and sim.i == 0 and sim.e == 0 and rng.chance(2, 3) and c == "R":
                 continue          # do not make the object unusable too early
             s += c
             sim.apply(c)
@@ -335,7 +345,7 @@ def check_group(scripts, outs, crashes, label, model):
                 break
             if c[0] != "c" and c not in "aw":
                 sim.apply(c)
-            elif c == "a" and sim.e == 0:
+            if c in "aAB" and sim.e == 0:
                 sim.pend = 0
             stats["max_pending_notifications"] = max(stats["max_pending_notifications"], sim.pend)
             ix, ir, inq, _dl = steps[k]
@@ -369,7 +379,7 @@ def check_group(scripts, outs, crashes, label, model):
                 tq = 5 if c == "t" else 6
             elif c not in "aw":
                 simf.apply(c)
-            elif c == "a" and simf.e == 0:
+            if c in "aAB" and simf.e == 0:
                 simf.pend = 0
         want = [1, ctx, tq] if (not simf.alive() and hasfin and ctx) else [0, 0, -1]
         if not bad or not any(f["script"] == "G " + s for f in fails):
@@ -381,7 +391,7 @@ def check_group(scripts, outs, crashes, label, model):
                                                                   (want[1], want[2])) if want[0] else "no run (%s)" %
                                        ("the application still holds references" if simf.alive() else "no context / finalizer set")),
                               "script": "G " + s})
-            exp_deliv = sum(1 for c in toks if c == "n") - simf.pend
+            exp_deliv = sum(1 for c in toks if c in ("n", "A", "B")) - simf.pend
             if fin[3] != exp_deliv:
                 fails.append({"key": "%s:notifications:%s" % (label, s), "what": "group history %s: %d notification(s) delivered, "
                               "expected %d (every notification registered before the group emptied, exactly once)" % (s, fin[3], exp_deliv),
@@ -612,7 +622,7 @@ def analyse_stress(text, label, rc, err):
     fails, traces = [], []
     stats = {"rounds": 0, "threads": 0, "wake_batches": 0, "max_batch": 0, "cas_retries": 0, "weak_cas_retries": 0,
              "dispose_in_release": 0, "dispose_in_leave": 0, "dispose_in_internal_release": 0, "dispose_in_notify": 0,
-             "calls_via_internal_reference": 0, "retain_weak_calls": 0, "retain_weak_refused": 0, "max_concurrent_borrowers": 0}
+             "calls_via_internal_reference": 0, "calls_under_an_outstanding_enter": 0, "retain_weak_calls": 0, "retain_weak_refused": 0, "max_concurrent_borrowers": 0}
     callspans = []
     for l in other:
         f = l.split()
@@ -640,8 +650,10 @@ def analyse_stress(text, label, rc, err):
         for e in tr:
             if e.kind == 100:
                 lastop, lastseq = e.a % 100, e.seq
-                if e.a >= 100:
+                if 100 <= e.a < 200:
                     stats["calls_via_internal_reference"] += 1
+                if e.a >= 200:
+                    stats["calls_under_an_outstanding_enter"] += 1
                 if lastop == 11:
                     stats["retain_weak_calls"] += 1
             if e.kind == 101 and lastop in (3, 5, 1, 9, 11):
@@ -774,7 +786,8 @@ def correspond(ctx):
     samples += [{"thread_trace": [e.brief() for e in t][:30]} for (_, t, _, _, _) in alltr[:2]]
     return {"evaluations": dist.get("group_calls", 0) + dist.get("lane_calls", 0) + len(alltr), "distinct_nontrivial": distinct,
             "rule": "(a) seeded random legal reference histories on real groups (set_context/finalizer/target queue, enter, leave, "
-                    "notify with up to N pending, group_async, retain/release, _os_object_retain_weak, internal retain/release, final "
+                    "notify with up to N pending, group_async, a group block that re-enters and notifies from inside (also after the application's "
+                    "last dispatch_release: use under an outstanding enter only), retain/release, _os_object_retain_weak, internal retain/release, final "
                     "drops in random order) and on queues / timer sources (suspend/resume, children, async while suspended, drains "
                     "interrupted by a suspension, queue_set_specific, arm/cancel): Model/Refcnt.v is evaluated first; at every quiescent "
                     "point (barriers through the queues involved, then a condition wait on the model's counts that gives up only after 4 s "
